@@ -1,7 +1,7 @@
 (* Wire format for tokens and the stream-level functions (renderer, core rules,
    Token dict round trip, syntax tree). *)
 From MD Require Import Base.Py Base.Str Base.Sx Base.Opt Base.Regex
-     Model.Token Model.Utils Model.Render Model.Core Model.Tree.
+     Model.Token Model.Utils Model.Render Model.Core Model.Tree Model.Url.
 
 Definition dec_aval (s : sx) : aval :=
   if un_int (sx_nth s 0%nat) =? 0 then AStr (un_str (sx_nth s 1%nat)) else AInt (un_int (sx_nth s 1%nat)).
@@ -121,5 +121,7 @@ Definition run_strfn (s : sx) : sx :=
   | 4 => sx_str (collapse_ws (py_strip x))
   | 5 => sx_list (fun c => SL [sx_bool (is_white_space c); sx_bool (is_punct_char c); sx_bool (is_md_ascii_punct c);
                                sx_bool (is_valid_entity_code c); sx_bool (is_py_space c)]) x
+  | 6 => sx_str (encode x)
+  | 7 => SL [sx_bool (validate_link x); sx_bool (validate_link_re x)]
   | _ => SL []
   end.
